@@ -16,7 +16,7 @@ EXPLANATION = (
     "raises ValueError. C18.3: shortest_int sorts the data, uses lag = int(len*p/100), forms the candidates sorted[lag:]-sorted[:-lag] and "
     "returns (sorted[i], sorted[i+lag]) where i is argmin of the candidates (an element of the minimiser set); an index computed "
     "arithmetically from several minimisers (mean, midpoint) need not be a minimiser and is reported; the truncated quantity is "
-    "(p*len)/100 evaluated product-first (floor makes the floating-point rounding order observable). C18.4: no late binding of gv. Not decided: distribution-"
+    "(p*len)/100 evaluated product-first (floor makes the floating-point rounding order observable). A cast applied before the clamp must hold every rounded value (int/int64/float; a narrower type wraps out-of-range codes before they can saturate). C18.4: no late binding of gv. Not decided: distribution-"
     "dependent behaviour.")
 TRUSTED = ["numpy.round/clip/sort/argmin semantics"]
 
@@ -39,6 +39,15 @@ def strip_clip(v):
             if inner and inner[0] == "fn" and inner[1] == "minimum":
                 return inner[2][0], a[2][1], inner[2][1]
     return None
+
+
+def peel_cast(v):
+    """astype(x, T) -> x (a cast AFTER the clamp acts on codes already inside [0, 2**n-1])"""
+    a = v.single_atom() if isinstance(v, Form) else None
+    while a and a[0] == "fn" and a[1] == "astype" and a[2]:
+        v = a[2][0]
+        a = v.single_atom() if isinstance(v, Form) else None
+    return v
 
 
 def _lag_rounding(ctx, fs_):
@@ -129,7 +138,7 @@ def run(ctx):
             code_want = mk_fn("round", [(x - Vm) / Dd * top])
             if ot == "v":
                 # back-map: sig = code/(2^n-1)*D + V_min  -> isolate the code
-                codes = [a for a in sig.atoms(deep=False) if a[0] == "fn" and a[1] in ("clip", "minimum", "maximum", "round")] if isinstance(sig, Form) else []
+                codes = [a for a in sig.atoms(deep=False) if a[0] == "fn" and a[1] in ("clip", "minimum", "maximum", "round", "astype")] if isinstance(sig, Form) else []
                 if len(codes) != 1:
                     ctx.violation("C18.2", fi, rets[0].node, f"ADC [{case}]: back-map", "output is not an affine map of a single code array")
                     continue
@@ -139,9 +148,9 @@ def run(ctx):
                           f"the 'v' back-map {sig!r} is not the inverse of the code map: in-range samples move by more than half a step"[:500])
             else:
                 code = sig
-            sc = strip_clip(code)
+            sc = strip_clip(peel_cast(code))
             if sc is None:
-                inner = code
+                inner = peel_cast(code)
                 ia = inner.single_atom() if isinstance(inner, Form) else None
                 if ia and ia[0] == "fn" and ia[1] == "round":
                     ctx.violation("C18.1", fi, rets[0].node, f"ADC [{case}]: rounded code reaches the output unclamped",
